@@ -7,6 +7,7 @@ import (
 	"fmt"
 	"math/big"
 
+	"github.com/Oneledger/protocol/action"
 	"github.com/Oneledger/protocol/data/balance"
 	sv "github.com/Oneledger/protocol/zz_sv"
 )
@@ -85,4 +86,72 @@ func SV_C12_mature_undelegation() {
 		}
 	}
 	sv.Cover(pend[fmt.Sprint(now, "_", 0)].BigInt().Sign() > 0, "something-matured")
+}
+
+// SV_C12_handler_step: one network-delegation transaction (delegate,
+// undelegate, withdraw rewards, reinvest) delivered from an arbitrary state in
+// which the delegation pool holds the active total plus an arbitrary donation
+// slack, and pending entries may already exist at the maturity height.
+//
+// sv:bounds 2 delegators with arbitrary active amounts, pending undelegations and pending reward withdrawals at heights {now, now+4} and reward balances; pool = sum of active + arbitrary slack >= 0; the kind is a choice; payload names any party (who signs), amount any integer in any currency name; mempool-admitted regime
+// sv:outside several operations per block (one inductive step: an existing pending entry at the maturity height stands for an earlier operation of the same block); more than 2 delegators
+// sv:goal after a successful transaction: pool - sum(active) is unchanged (the pool mirrors the active set); undelegate moves exactly the amount from active to pending[now+4] and out of the pool; withdraw-rewards moves exactly the amount (at most the reward balance) from the reward balance to the pending withdrawal of now+4; reinvest moves it from the reward balance into active and the pool; delegate moves it from the balance into active and the pool; nobody else's records change
+func SV_C12_handler_step() {
+	e := svNewEnv(2, 20, svPreDeleg)
+	kind := sv.Choice("kind", 4)
+	var raw action.RawTx
+	var signers []int
+	switch kind {
+	case 0:
+		raw, signers = svBuildDelegate(e)
+	case 1:
+		raw, signers = svBuildUndelegate(e)
+	case 2:
+		raw, signers = svBuildDelegWithdraw(e)
+	default:
+		raw, signers = svBuildDelegReinvest(e)
+	}
+	r := e.step(raw, signers, true)
+	if r.resp.Code != 0 {
+		sv.Cover(true, "refused")
+		return
+	}
+	who := svPartyName(signers[0])
+	other := svPartyName(1 - signers[0])
+	d := func(cell string) *big.Int { return new(big.Int).Sub(r.after.get(cell), r.before.get(cell)) }
+	slack := func(l *svLedger) *big.Int {
+		s := new(big.Int).Set(l.get("b:pool:delegation:OLT"))
+		s.Sub(s, l.get("deleg:a:A"))
+		return s.Sub(s, l.get("deleg:a:B"))
+	}
+	sv.Assert(slack(r.after).Cmp(slack(r.before)) == 0, "pool-keeps-mirroring-the-active-total")
+	mh := fmt.Sprint(e.height + 4)
+	dActive, dPend, dPool := d("deleg:a:"+who), d("deleg:p:"+mh+":"+who), d("b:pool:delegation:OLT")
+	dRw, dRwPend, dBal := d("delegRwz:b:"+who), d("delegRwz:p:"+mh+":"+who), d("b:"+who+":OLT")
+	neg := func(x *big.Int) *big.Int { return new(big.Int).Neg(x) }
+	switch kind {
+	case 0:
+		sv.Assert(dActive.Sign() >= 0 && dPool.Cmp(dActive) == 0 && dPend.Sign() == 0 && dRw.Sign() == 0 && dRwPend.Sign() == 0, "delegate-moves-amount-into-active-and-pool")
+		sv.Cover(dActive.Sign() > 0, "delegated")
+	case 1:
+		sv.Assert(dActive.Sign() <= 0 && dPend.Cmp(neg(dActive)) == 0 && dPool.Cmp(dActive) == 0 && dRw.Sign() == 0 && dRwPend.Sign() == 0, "undelegate-moves-exactly-the-amount-from-active-to-pending-and-out-of-the-pool")
+		sv.Cover(dActive.Sign() < 0, "undelegated")
+	case 2:
+		sv.Assert(dRw.Sign() <= 0 && dRwPend.Cmp(neg(dRw)) == 0 && dActive.Sign() == 0 && dPend.Sign() == 0 && dPool.Sign() == 0, "withdraw-moves-exactly-the-amount-from-reward-balance-to-pending")
+		sv.Assert(r.after.get("delegRwz:b:"+who).Sign() >= 0, "withdrawal-within-the-reward-balance")
+		sv.Cover(dRw.Sign() < 0, "withdrawn")
+	default:
+		sv.Assert(dRw.Sign() <= 0 && dActive.Cmp(neg(dRw)) == 0 && dPool.Cmp(dActive) == 0 && dPend.Sign() == 0 && dRwPend.Sign() == 0, "reinvest-moves-exactly-the-amount-from-rewards-into-active-and-pool")
+		sv.Cover(dRw.Sign() < 0, "reinvested")
+	}
+	_ = dBal
+	// the other delegator and all other maturity heights are untouched
+	for _, c := range r.after.cells {
+		if c.Owner == other {
+			sv.Assert(c.V.Cmp(r.before.get(c.Name)) == 0, "other-delegators-records-untouched")
+		}
+	}
+	for _, h := range []int64{e.height, e.height + 1, e.height + 5} {
+		sv.Assert(d(fmt.Sprint("deleg:p:", h, ":", who)).Sign() == 0 && d(fmt.Sprint("delegRwz:p:", h, ":", who)).Sign() == 0, "entries-of-other-heights-untouched")
+	}
 }
